@@ -43,3 +43,42 @@ Theorem C05_filter_principle : forall exact computed errb : Z,
   Z.abs (computed - exact) <= errb -> errb < Z.abs computed -> Z.sgn computed = Z.sgn exact.
 Proof. exact filter_principle. Qed.
 Print Assumptions C05_filter_principle.
+
+(* ---- the filter of HalfSpace::clip on IEEE binary64 (bit-exact Flocq model Model/Filter.v of HalfSpace::new / clip, tied to the
+   code by the `hsclip` correspondence of the C05 check): for the floating-point n, p, v actually handed to it, a conclusive
+   decision (+1 / -1) has the sign of the exact n . (v - p) - for ALL finite inputs on which the computed value and the two
+   candidate bounds are finite (no overflow).  The accumulated rounding error is at most 11 u |n|_1 max(|p|,|v|) + 18 eta
+   (u = 2^-53, eta = 2^-1075), strictly below the bound max(1e-13 (1 + |n|.|p|), 1e-13 |n|_1 max(|p|,|v|)) of the fixed code
+   (43a72c0).  What remains outside this theorem is the error of the vertex v itself (computed from three planes), which is the
+   recorded finding K2 / K5 *)
+From Coq Require Import Reals.
+From Flocq Require Import Core Binary Bits.
+From MV Require Import Model.Grid Model.Filter Proofs.FilterErr Proofs.FilterB64.
+Theorem C05_filter_conclusive_is_exact_sign_binary64 : forall n p v : vec,
+  is_finite 53 1024 (clip_value n p v) = true ->
+  is_finite 53 1024 (hs_errb n p) = true ->
+  is_finite 53 1024 (clip_errb1 n p v) = true ->
+  (clip_filter n p v = 1%Z -> (0 < exactE n p v)%R) /\ (clip_filter n p v = (-1)%Z -> (exactE n p v < 0)%R).
+Proof. exact clip_filter_sound. Qed.
+Print Assumptions C05_filter_conclusive_is_exact_sign_binary64.
+
+(* the same statement for any rounding operator with relative error u and absolute error eta (real-number level) *)
+Theorem C05_filter_error_below_bound : forall (rnd : R -> R) (eta : R),
+  (0 <= eta)%R -> (eta <= u / 1000)%R ->
+  (forall x, Rabs (rnd x - x) <= u * Rabs x + eta)%R -> (forall x y, x <= y -> rnd x <= rnd y)%R ->
+  rnd 0%R = 0%R -> rnd 1%R = 1%R -> rnd EPSr = EPSr ->
+  forall n1 n2 n3 p1 p2 p3 v1 v2 v3 : R,
+  (eta * Rmax (Rmax (Rabs p1) (Rmax (Rabs p2) (Rabs p3))) (Rmax (Rabs v1) (Rmax (Rabs v2) (Rabs v3))) <= 4 * u)%R ->
+  (11 * u * ((Rabs n1 + Rabs n2 + Rabs n3) * Rmax (Rmax (Rabs p1) (Rmax (Rabs p2) (Rabs p3))) (Rmax (Rabs v1) (Rmax (Rabs v2) (Rabs v3)))) + 18 * eta
+   < errb_r rnd n1 n2 n3 p1 p2 p3 v1 v2 v3)%R.
+Proof. exact err_lt_errb. Qed.
+Print Assumptions C05_filter_error_below_bound.
+
+(* non-vacuity: a concrete plane and vertex on which the hypotheses hold and the filter is conclusive *)
+Example C05_filter_example :
+  let n := (of_bits 0x3FF0000000000000, of_bits 0x3FE0000000000000, of_bits 0)%Z in
+  let p := (of_bits 0x3FE0000000000000, of_bits 0x3FD0000000000000, of_bits 0x3FB999999999999A)%Z in
+  let v := (of_bits 0x3FE8000000000000, of_bits 0x3FD0000000000000, of_bits 0x4000000000000000)%Z in
+  is_finite 53 1024 (clip_value n p v) = true /\ is_finite 53 1024 (hs_errb n p) = true /\
+  is_finite 53 1024 (clip_errb1 n p v) = true /\ clip_filter n p v = 1%Z.
+Proof. vm_compute. repeat split. Qed.
